@@ -62,6 +62,10 @@ Print Assumptions inline_leaves_by_name.
           callable, the object it is bound to would be lost;
      F35  for a callable that has __wrapped__ (functools.wraps, lru_cache ...): inspect finds the source of the
           undecorated function, inlining it would drop what the decorator does.
+   Likewise an input: whether the source of the callable is a plain `def` at all - F41: an `async def` (calling it gives a
+   coroutine, not the value of its return expression) is refused by rewrite_func_as_lambda like a multi-statement body.
+   (F40 concerns the text handed to the parser: a multi-line string literal in a nested def keeps its continuation lines;
+   the helper's Lambda that the model receives carries the string's true value.)
    F36 is decided by the model itself: a helper whose lambda contains an assignment expression ([has_walrus]; a NamedExpr
    node anywhere, default values included) is [CFun None] too - substituting an argument for a name that is assigned to
    is wrong (`(e.a := e.a + 1) * 2`).  By [inline_leaves_by_name] all their calls stay calls by name, arguments resolved. *)
@@ -126,10 +130,20 @@ Theorem inline_keeps_starred_in_place_stack :
 Proof. intros e. exact (swf_res_all (S (size e)) e (Nat.lt_succ_diag_r _)). Qed.
 Print Assumptions inline_keeps_starred_in_place_stack.
 
+(* F48: a called lambda whose body contains an assignment expression stays a call: the name it binds is local to that
+   lambda - moved out, it would rebind a name of the enclosing lambda, or the argument would land in the target *)
+Theorem inline_leaves_walrus_call :
+  forall st ps b args kwn kwv,
+    has_walrus b = true ->
+    res st (Call (Lambda ps b) args kwn kwv) =
+    Call (Lambda ps (res (shadow ps :: st) b)) (map (res st) args) kwn (map (res st) kwv).
+Proof. exact res_walrus_call_stays. Qed.
+Print Assumptions inline_leaves_walrus_call.
+
 (* without a starred argument nothing changed: matching count, no keywords, no clash -> substituted *)
 Theorem inline_plain_call_substituted :
   forall st ps b args kwv,
-    length ps = length args -> existsb is_starred args = false ->
+    length ps = length args -> existsb is_starred args = false -> has_walrus b = false ->
     overlaps (flat_map names_in (map (res st) args)) (inner_binders b) = false ->
     res st (Call (Lambda ps b) args [] kwv) = res_inlined st ps b args.
 Proof. exact res_plain_call_inlined. Qed.
@@ -462,7 +476,7 @@ Proof. repeat split; vm_compute; reflexivity. Qed.
 Example walrus_helper_inlined_pinned_refuted :
   exists w arg,
     has_walrus w = true /\
-    (match rewrite_captured (glob []) w with Ok w' => res [] (Call w' [arg] [] []) | Err _ => Name "" end)
+    (match rewrite_captured (glob []) w with Ok (Lambda ps b) => res_inlined [] ps b [arg] | _ => Name "" end)
     = BinOp BMult (Other "NamedExpr;target=n;value=n" [] [Attr (Name "e") "a"; BinOp BAdd (Attr (Name "e") "a") (Const (CInt 1))])
                   (Const (CInt 2)).
 Proof.
@@ -499,3 +513,33 @@ Example bare_return_helper_left_by_name :
     (Lambda ["e"] (Tuple [Call (Name "ignore") [Attr (Name "e") "a"] [] []; Call (Name "h") [Attr (Name "e") "b"] [] []]))
   = Ok (Lambda ["e"] (Tuple [Call (Name "ignore") [Attr (Name "e") "a"] [] []; BinOp BAdd (Attr (Name "e") "b") (Const (CInt 1))])).
 Proof. repeat split; vm_compute; reflexivity. Qed.
+
+(* F41: `async def af(x): return x + 1` is [CFun None] in the snapshot: lambda e: af(e.a) keeps the call by name *)
+Example async_helper_left_by_name :
+  let ce := glob [("af", CFun None); ("h", helper_capval (glob []) (Lambda ["a"] (BinOp BAdd (Name "a") (Const (CInt 1)))))] in
+  not_inlinable ce "af" /\
+  parse_callable ce (Lambda ["e"] (Tuple [Call (Name "af") [Attr (Name "e") "a"] [] []; Call (Name "h") [Attr (Name "e") "a"] [] []]))
+  = Ok (Lambda ["e"] (Tuple [Call (Name "af") [Attr (Name "e") "a"] [] []; BinOp BAdd (Attr (Name "e") "a") (Const (CInt 1))])).
+Proof. split; [left; reflexivity | vm_compute; reflexivity]. Qed.
+
+(* F48: lambda t: (lambda q: (t := q) + t)(t.a) + t.b - the call stays; substituted, `t := t.a` would rebind the query's own
+   parameter ((t := t.a) + t + t.b), and (lambda q: (q := q + 1) * 2)(e.a) would put e.a in the assignment target *)
+Example walrus_call_left :
+  let f := Lambda ["q"] (BinOp BAdd (walrus "t" (Name "q")) (Name "t")) in
+  let g := Lambda ["q"] (BinOp BMult (walrus "q" (BinOp BAdd (Name "q") (Const (CInt 1)))) (Const (CInt 2))) in
+  has_walrus (BinOp BAdd (walrus "t" (Name "q")) (Name "t")) = true /\
+  res [] (BinOp BAdd (Call f [Attr (Name "t") "a"] [] []) (Attr (Name "t") "b"))
+  = BinOp BAdd (Call f [Attr (Name "t") "a"] [] []) (Attr (Name "t") "b") /\
+  res [] (Call g [Attr (Name "e") "a"] [] []) = Call g [Attr (Name "e") "a"] [] [] /\
+  inner_binders (Call g [Attr (Name "e") "a"] [] []) = ["q"].
+Proof. repeat split; vm_compute; reflexivity. Qed.
+
+Example walrus_call_substituted_pinned_refuted :
+  exists ps b args,
+    length ps = length args /\ has_walrus b = true /\
+    res_inlined [] ps b args
+    = BinOp BAdd (BinOp BAdd (walrus "t" (Attr (Name "t") "a")) (Name "t")) (Attr (Name "t") "b").
+Proof.
+  exists ["q"], (BinOp BAdd (BinOp BAdd (walrus "t" (Name "q")) (Name "t")) (Attr (Name "t") "b")), [Attr (Name "t") "a"].
+  repeat split; vm_compute; reflexivity.
+Qed.
